@@ -69,9 +69,9 @@ def c08(tier, seed):
             op("verify_%s_L%d_h%d_%s" % (sk_, L, H, MN[0]), "op_verify::<%s, %d, %d, %s>()" % (cs, L, H, MN), "S3",
                dict(entry="verify", suite=sk_, L=L, header_shape=H, msgs_none=MN))
     # (U, index shape, #messages, header shape, ph shape)
-    pv = [(0, 0, 0, 0, 0), (1, 1, 1, 2, 2), (0, 2, 2, 1, 0), (2, 1, 1, 0, 1), (1, 3, 2, 0, 0), (0, 1, 0, 0, 0), (1, 0, 1, 0, 2), (1, 4, 2, 0, 0), (1, 5, 2, 0, 0)]
+    pv = [(0, 0, 0, 0, 0), (1, 1, 1, 2, 2), (0, 2, 2, 1, 0), (2, 2, 2, 0, 1), (1, 3, 2, 0, 0), (0, 1, 0, 0, 0), (1, 0, 1, 0, 2), (1, 4, 2, 0, 0), (1, 5, 2, 0, 0)]
     if th:
-        pv += [(2, 2, 2, 2, 2), (3, 1, 1, 1, 1), (0, 6, 2, 0, 0), (1, 6, 2, 0, 0), (2, 0, 0, 0, 0), (3, 0, 0, 2, 2), (2, 5, 2, 0, 0), (2, 4, 1, 0, 0)]
+        pv += [(2, 2, 2, 2, 2), (2, 0, 0, 0, 0), (3, 0, 0, 2, 2), (2, 5, 2, 0, 0), (2, 4, 1, 0, 0), (3, 2, 2, 1, 1)]
     for (U, ISH, NM, H, PH) in pv:
         for sk_, cs in (suites(tier, seed, "pv") if th else one_suite(tier, seed, "c08pv%d%d%d" % (U, ISH, NM))):
             op("proof_verify_%s_U%d_i%d_N%d_h%d_p%d" % (sk_, U, ISH, NM, H, PH),
@@ -87,17 +87,17 @@ def c08(tier, seed):
                "op_bpv_arith::<%s, %d, %d, %d, %d, %s>()" % (cs, U, 272 + 32 * U, R1, R2, LN), "PP",
                dict(entry="blind_proof_verify", part="arithmetic before prepare_parameters", suite=sk_, U=U, R1=R1, R2=R2, L=("None" if LN == "true" else "any usize")))
     # blind_proof_verify index handling with concrete L: (U, L, shape1, shape2, n1, n2)
-    bpv = [(1, 0, 0, 0, 0, 0), (1, 0, 0, 1, 0, 1), (2, 1, 1, 1, 1, 1), (2, 1, 1, 0, 1, 0), (1, 1, 0, 5, 0, 2)]
+    bpv = [(1, 0, 0, 0, 0, 0), (1, 1, 0, 5, 0, 2), (2, 1, 0, 2, 0, 2), (2, 2, 2, 0, 2, 0)]
     if th:
-        bpv += [(3, 1, 2, 1, 2, 1), (2, 0, 0, 2, 0, 2), (2, 2, 3, 0, 2, 0), (1, 0, 0, 4, 0, 2), (3, 2, 1, 1, 1, 1)]
+        bpv += [(2, 0, 0, 2, 0, 2), (2, 2, 3, 0, 2, 0), (1, 0, 0, 4, 0, 2), (3, 2, 2, 2, 2, 2)]
     for (U, LC, I1, I2, N1, N2) in bpv:
         for sk_, cs in (suites(tier, seed, "bpv") if th else one_suite(tier, seed, "c08bpv%d%d%d" % (U, I1, I2))):
             op("blind_proof_verify_%s_U%d_L%d_i%d_%d_n%d_%d" % (sk_, U, LC, I1, I2, N1, N2),
                "op_blind_proof_verify::<%s, %d, %d, %d, %d, %d, %d, %d>()" % (cs, U, 272 + 32 * U, LC, I1, I2, N1, N2), "S3",
                dict(entry="blind_proof_verify", part="index handling", suite=sk_, U=U, L=LC, index_shapes=[I1, I2], msgs=[N1, N2]))
-    bsl = [1, 47, 48, 79, 80, 111, 112, 113, 144]
+    bsl = [1, 47, 48, 79, 112, 113, 144]
     if th:
-        bsl = sorted(set(bsl + [2, 31, 32, 49, 81, 96, 143, 145, 176, 177]))
+        bsl = sorted(set(bsl + [2, 31, 32, 49, 143, 145, 176, 177]))
     for n in bsl:
         for L in ([0, 1] if th else [pick(seed, "bsL%d" % n, [0, 1], 1)[0]]):
             for sk_, cs in one_suite(tier, seed, "c08bs%d" % n):
@@ -107,26 +107,31 @@ def c08(tier, seed):
         for sk_, cs in one_suite(tier, seed, "c08vbs%d%d" % (L, M)):
             op("verify_blind_sign_%s_L%d_M%d_%s" % (sk_, L, M, UB[0]), "op_verify_blind_sign::<%s, %d, %d, %s>()" % (cs, L, M, UB), "S3",
                dict(entry="verify_blind_sign", suite=sk_, L=L, M=M, blind_factor=UB))
-    for n in ([1, 47, 48, 79, 80, 112, 144] + ([111, 113, 143, 145, 176] if th else [])):
+    for n in ([1, 47, 48, 79, 112, 144] + ([113, 143, 145, 176] if th else [])):
         for Gn in ([0, 1, 2, 3] if th else pick(seed, "dcG%d" % n, [0, 1, 2, 3], 2)):
             for sk_, cs in one_suite(tier, seed, "c08dc%d" % n):
                 op("deser_commit_%s_len%d_G%d" % (sk_, n, Gn), "op_deser_commit::<%s, %d, %d>()" % (cs, n, Gn), "none",
                    dict(entry="deserialize_and_validate_commit", suite=sk_, len=n, blind_generators=Gn))
-    for (L, ISH) in [(0, 0), (0, 1), (1, 0), (1, 1), (2, 2), (2, 3), (2, 4), (2, 5)] + ([(3, 2), (3, 1), (2, 6), (2, 0), (3, 0), (1, 5)] if th else []):
+    for (L, ISH) in [(0, 0), (0, 1), (1, 0), (2, 2), (2, 3), (2, 4), (2, 5)] + ([(3, 2), (2, 0), (3, 0), (1, 5)] if th else []):
         for sk_, cs in one_suite(tier, seed, "c08pg%d%d" % (L, ISH)):
             op("proof_gen_%s_L%d_i%d" % (sk_, L, ISH), "op_proof_gen::<%s, 80, %d, %d>()" % (cs, L, ISH), "S3",
                dict(entry="proof_gen", suite=sk_, sig_len=80, L=L, index_shape=ISH))
-    for (L, M, I1, I2) in [(0, 0, 0, 0), (1, 0, 1, 0), (0, 1, 0, 1), (1, 1, 1, 1), (2, 1, 3, 0), (1, 2, 0, 5)] + ([(2, 1, 1, 1), (1, 2, 1, 2), (0, 0, 1, 1), (2, 2, 4, 2)] if th else []):
+    for (L, M, I1, I2) in [(0, 0, 0, 0), (2, 1, 3, 0), (1, 2, 0, 5), (2, 2, 2, 2)] + ([(2, 2, 4, 2), (2, 2, 2, 3), (1, 2, 0, 4)] if th else []):
         for sk_, cs in one_suite(tier, seed, "c08bpg%d%d" % (L, M)):
             op("blind_proof_gen_%s_L%d_M%d_i%d_%d" % (sk_, L, M, I1, I2),
                "op_blind_proof_gen::<%s, %d, %d, %d, %d>()" % (cs, L, M, I1, I2), "S3",
                dict(entry="blind_proof_gen", suite=sk_, L=L, M=M, index_shapes=[I1, I2]))
     for sk_, cs in one_suite(tier, seed, "c08up"):
-        for N in ([0, 1, 2, 3] if th else [0, 1, 2]):
-            op("update_%s_n%d" % (sk_, N), "op_update::<%s, %d, false>()" % (cs, N), "S3",
-               dict(entry="update_signature", suite=sk_, n=N, update_index="any usize"))
-        op("update_%s_nmax" % sk_, "op_update::<%s, 0, true>()" % cs, "S3",
-           dict(entry="update_signature", suite=sk_, n="usize::MAX", update_index="any usize"))
+        ups = [(0, 0, 0), (1, 0, 0), (1, 1, 0), (2, 1, 0), (2, 2, 0), (2, 3, 0), (1, 0, 1), (2, 0, 2)]
+        if th:
+            ups += [(3, 0, 0), (3, 2, 0), (3, 3, 0), (3, 4, 0), (0, 0, 1), (3, 0, 1)]
+        for (N, UI, K) in ups:
+            op("update_%s_n%d_ui%s" % (sk_, N, ("max%d" % (K - 1)) if K else str(UI)), "op_update::<%s, %d, false, %d, %d>()" % (cs, N, UI, K), "S3",
+               dict(entry="update_signature", suite=sk_, n=N, update_index=("usize::MAX-%d" % (K - 1)) if K else UI))
+        op("update_%s_nmax_ui0" % sk_, "op_update::<%s, 0, true, 0, 0>()" % cs, "S3",
+           dict(entry="update_signature", suite=sk_, n="usize::MAX", update_index=0))
+        op("update_%s_nmax_uimax" % sk_, "op_update::<%s, 0, true, 0, 1>()" % cs, "S3",
+           dict(entry="update_signature", suite=sk_, n="usize::MAX", update_index="usize::MAX"))
     for sk_, cs in suites(tier, seed, "c08g"):
         for N in ([0, 1, 2, 3] if th else [0, 1, 2]):
             op("generators_%s_n%d" % (sk_, N), "op_generators::<%s, %d>()" % (cs, N), "none",
